@@ -193,6 +193,15 @@ fn conv_proto_to_raw(src: &mut Src) -> Result<(String, usize), String> {
             p.cells[j].name = p.cells[i].name.clone();
         }
     }
+    // a message written top-down (users before the cells they place), or in no order at all: whatever the
+    // importer makes of it - the refusal it gives now, or an import - must be the same every time
+    if n >= 2 {
+        match src.below(6) {
+            0 => p.cells.reverse(),
+            1 => src.shuffle(&mut p.cells),
+            _ => {}
+        }
+    }
     let t = match raw::Library::from_proto(p, None) {
         Ok(l) => {
             let mut t = transcript_raw(&l)?;
@@ -272,6 +281,21 @@ fn conv_gds_to_raw(src: &mut Src) -> Result<(String, usize), String> {
                 g.structs[si].elems.push(gds21::GdsElement::GdsStructRef(gds21::GdsStructRef { name, xy, ..Default::default() }));
             }
         }
+    }
+    // ... or its references form a ring (an edit gone wrong): a chain of three or four structs closed on itself,
+    // entered from a further struct, so that several names are being visited when the ring closes
+    if g.structs.len() >= 2 && src.prob(1, 8) {
+        let base = g.structs.len();
+        let ring = src.usize_in(2, 4);
+        for k in 0..ring {
+            let mut st = gds21::GdsStruct::new(format!("ring_{}", (b'a' + ((k * 11 + base) % 26) as u8) as char));
+            st.elems.push(gds21::GdsElement::GdsStructRef(gds21::GdsStructRef { name: format!("ring_{}", (b'a' + ((((k + 1) % ring) * 11 + base) % 26) as u8) as char), xy: gds21::GdsPoint::new(k as i32, 1), ..Default::default() }));
+            g.structs.push(st);
+        }
+        // entered from an existing struct (one or two levels above the ring)
+        let si = src.index(base);
+        let entry = g.structs[base + src.index(ring)].name.clone();
+        g.structs[si].elems.push(gds21::GdsElement::GdsStructRef(gds21::GdsStructRef { name: entry, xy: gds21::GdsPoint::new(0, 0), ..Default::default() }));
     }
     // one import in three goes into a layer set provided by the caller, in which two named layers share a
     // number and a datatype (a metal and its via drawn on one GDSII layer), or a name is given twice
